@@ -1,5 +1,242 @@
-(* placeholder while the pipeline is brought up *)
-From Verif Require Import Base.Prelude Intention.Model.
-Theorem C13_placeholder : prec_of "default" "a" "default" "b" = 9%N.
-Proof. reflexivity. Qed.
-Print Assumptions C13_placeholder.
+(* C13 — intention decisions follow precedence, independent of write order.
+   Theorems only; each is closed by an application of a lemma of Intention/Theorems.v (or Proofs.v).
+
+   Vocabulary (Intention/Spec.v, definitions only):
+     covers peer sns s dns d i      authz.go's IntentionMatch holds of i on the source side (peer, sns/s)
+                                    and on the destination side (dns/d)
+     more_specific i j              (destination specificity, source specificity) of i is lexicographically
+                                    above that of j; specificity = number of exact (non-"*") parts
+     best all q i                   i is stored, covers q, and every other stored covering intention is
+                                    strictly less specific
+     decided all q o                o = Some (the best intention) or None when nothing stored covers q
+     summary_of o default aperms    the IntentionDecisionSummary that o must produce
+     route1 / route2 (Model.v)      Store.IntentionMatch by source + IntentionDecision on the destination
+                                    (Intention.Check), resp. by destination + decision on the source
+                                    (agent authorize, xDS, topology)
+     legacy_ok / store_ok           the invariants the legacy table / the config-entry table maintain
+     coherent names                 no two of the names differ only in letter case
+     shadow_free st                 no entry has two sources with the same service name (local + peered) *)
+From Coq Require Import Sorting.Permutation Sorting.Sorted.
+From Verif Require Import Base.Prelude.
+From Verif Require Import Intention.Model.
+From Verif Require Import Intention.Spec.
+From Verif Require Import Intention.OrderProofs.
+From Verif Require Import Intention.Proofs.
+From Verif Require Import Intention.Theorems.
+Local Open Scope string_scope.
+Local Open Scope list_scope.
+
+(* Precedence numbers order intentions exactly by (destination specificity, source specificity). *)
+Theorem C13_precedence_is_specificity : forall i j,
+  wf i -> wf j -> ((i_prec j < i_prec i)%N <-> more_specific i j).
+Proof. exact prec_lt_specific. Qed.
+
+(* At most one intention can be "the most specific one covering the pair". *)
+Theorem C13_decision_unique : forall all peer sns s dns d o o',
+  (forall i j, In i all -> In j all -> key5 i = key5 j -> i = j) ->
+  decided all peer sns s dns d o -> decided all peer sns s dns d o' -> o = o'.
+Proof. exact decision_unique. Qed.
+
+(* The decision is the action of the unique most specific covering intention, the default policy when
+   none covers the pair — along both routes — for config entries (sources of any peer) ... *)
+Theorem C13_most_specific : forall st peer s d default_allow allow_perms,
+  store_ok st -> coherent (enames st ++ [d]) ->
+  exists o, decided (call st) peer dflt s dflt d o /\
+    route2 (fun _ n => cmatch_dst st n) peer dflt s dflt d default_allow allow_perms
+      = summary_of o default_allow allow_perms /\
+    (peer = "" ->
+     route1 (fun _ n => cmatch_src st n) dflt s dflt d default_allow allow_perms
+      = summary_of o default_allow allow_perms).
+Proof. exact most_specific_config. Qed.
+
+(* ... and for the legacy table (any namespaces). *)
+Theorem C13_most_specific_legacy : forall t peer sns s dns d default_allow allow_perms,
+  legacy_ok t -> coherent (tnames t ++ [sns; s; dns; d]) ->
+  exists o, decided t peer sns s dns d o /\
+    route2 (legacy_match t MDst) peer sns s dns d default_allow allow_perms
+      = summary_of o default_allow allow_perms /\
+    (peer = "" ->
+     route1 (legacy_match t MSrc) sns s dns d default_allow allow_perms
+      = summary_of o default_allow allow_perms).
+Proof. exact most_specific_legacy. Qed.
+
+(* The check path (match by source, decide on destination) and the authorize path (match by destination,
+   decide on source) give the same answer. *)
+Theorem C13_paths_agree : forall st s d default_allow allow_perms,
+  store_ok st -> coherent (enames st ++ [d]) ->
+  route1 (fun _ n => cmatch_src st n) dflt s dflt d default_allow allow_perms
+  = route2 (fun _ n => cmatch_dst st n) "" dflt s dflt d default_allow allow_perms.
+Proof. exact paths_agree_config. Qed.
+
+Theorem C13_paths_agree_legacy : forall t sns s dns d default_allow allow_perms,
+  legacy_ok t -> coherent (tnames t ++ [sns; s; dns; d]) ->
+  route1 (legacy_match t MSrc) sns s dns d default_allow allow_perms
+  = route2 (legacy_match t MDst) "" sns s dns d default_allow allow_perms.
+Proof. exact paths_agree_legacy. Qed.
+
+(* The full statements without the case hypothesis are false of the code: the table indexes fold case,
+   authz.go does not.  Entry "DB": nothing covers web -> db, route 2 allows it, route 1 does not. *)
+Theorem C13_case_folding_refuted :
+  store_ok cf_store /\
+  decided (call cf_store) "" dflt "web" dflt "db" None /\
+  d_allowed (route2 (fun _ n => cmatch_dst cf_store n) "" dflt "web" dflt "db" false false) = true /\
+  d_allowed (route1 (fun _ n => cmatch_src cf_store n) dflt "web" dflt "db" false false) = false.
+Proof. exact case_folding_refuted. Qed.
+
+Theorem C13_case_folding_legacy_refuted :
+  legacy_ok cf_table /\
+  decided cf_table "" dflt "web" dflt "db" None /\
+  d_allowed (route2 (legacy_match cf_table MDst) "" dflt "web" dflt "db" false false) = true /\
+  d_allowed (route1 (legacy_match cf_table MSrc) dflt "web" dflt "db" false false) = false.
+Proof. exact case_folding_legacy_refuted. Qed.
+
+(* Match and list results: sorted by (precedence descending, tie-break) and a permutation of the stored
+   intentions whose pattern covers the queried name. *)
+Theorem C13_sorted_legacy : forall t mt ns n,
+  (forall i, In i t -> wf i) -> coherent (tnames t ++ [ns; n]) ->
+  isorted (legacy_match t mt ns n) /\
+  Permutation (legacy_match t mt ns n) (filter (side_pred mt ns n) t).
+Proof. exact sorted_legacy. Qed.
+
+Theorem C13_sorted_dst : forall st d,
+  store_ok st -> coherent (enames st ++ [d]) ->
+  isorted (cmatch_dst st d) /\
+  Permutation (cmatch_dst st d) (filter (fun j => wild_or_eq (i_dname j) d) (call st)).
+Proof. exact sorted_config_dst. Qed.
+
+(* by source: for EVERY valid store, sorted and exactly what [src_sel] selects ... *)
+Theorem C13_sorted_src : forall st s,
+  store_ok st ->
+  isorted (cmatch_src st s) /\
+  Permutation (cmatch_src st s) (filter (src_sel (call st) s) (call st)).
+Proof. exact sorted_config_src. Qed.
+
+(* ... which is "the local intentions whose source covers s" when no entry mixes a local and a peered
+   source of the same name ... *)
+Theorem C13_sorted_src_partial : forall st s,
+  store_ok st -> shadow_free st ->
+  Permutation (cmatch_src st s)
+              (filter (fun j => String.eqb (i_peer j) "" && wild_or_eq (i_sname j) s)%bool (call st)).
+Proof. exact sorted_config_src_clean. Qed.
+
+(* ... and contains a peered intention that does not match the local service otherwise. *)
+Theorem C13_sorted_src_refuted :
+  store_ok so_st1 /\
+  exists j, In j (cmatch_src so_st1 "web") /\ i_peer j = "p" /\
+            authz_match MSrc "web" dflt "" j = false.
+Proof. exact src_match_peered_refuted. Qed.
+
+Theorem C13_sorted_lists : forall t st,
+  (isorted (legacy_list t) /\ Permutation (legacy_list t) t) /\
+  (isorted (config_list st) /\ Permutation (config_list st) (call st)).
+Proof. exact sorted_lists. Qed.
+
+(* the order is strict on stored intentions: no two distinct ones tie *)
+Theorem C13_sorted_strict : forall all l,
+  (forall i j, In i all -> In j all -> key5 i = key5 j -> i = j) -> incl l all ->
+  forall i j, In i l -> In j l -> ileb i j = true -> ileb j i = true -> i = j.
+Proof. exact sorted_strict. Qed.
+
+(* Order independence.  Legacy table: creating fresh intentions in any order. *)
+Theorem C13_order_independent_legacy : forall t ws ws',
+  fresh_writes t ws -> Permutation ws ws' ->
+  let t1 := legacy_apply t ws in
+  let t2 := legacy_apply t ws' in
+  legacy_list t1 = legacy_list t2 /\
+  (forall mt ns n, legacy_match t1 mt ns n = legacy_match t2 mt ns n) /\
+  (forall peer sns s dns d da ap,
+     route1 (legacy_match t1 MSrc) sns s dns d da ap = route1 (legacy_match t2 MSrc) sns s dns d da ap /\
+     route2 (legacy_match t1 MDst) peer sns s dns d da ap = route2 (legacy_match t2 MDst) peer sns s dns d da ap).
+Proof. exact order_independent_legacy. Qed.
+
+(* Whole service-intentions entries (ConfigEntry.Apply), any sources incl. peered ones: any order of writes
+   of distinct entries, starting from any two valid stores holding the same intentions in any stored order. *)
+Theorem C13_order_independent_entries : forall st1 st2 es1 es2,
+  store_ok st1 -> store_ok st2 -> Permutation (call st1) (call st2) ->
+  Permutation es1 es2 -> NoDup (map lname es1) ->
+  let a := ensure_all st1 es1 in
+  let b := ensure_all st2 es2 in
+  config_list a = config_list b /\
+  (forall s, cmatch_src a s = cmatch_src b s) /\
+  (forall d, coherent ((enames st1 ++ map e_name es1) ++ [d]) -> cmatch_dst a d = cmatch_dst b d) /\
+  (forall peer s d da ap, coherent ((enames st1 ++ map e_name es1) ++ [d]) ->
+     route1 (fun _ n => cmatch_src a n) dflt s dflt d da ap = route1 (fun _ n => cmatch_src b n) dflt s dflt d da ap /\
+     route2 (fun _ n => cmatch_dst a n) peer dflt s dflt d da ap = route2 (fun _ n => cmatch_dst b n) peer dflt s dflt d da ap).
+Proof. exact order_independent_entries. Qed.
+
+(* Upserts (Intention.Apply -> Store.IntentionMutation), valid or rejected ones alike: any order of upserts of
+   distinct (destination, source) pairs, from any two valid stores holding the same intentions in any stored
+   order — provided no entry mixes a local and a peered source of the same name ... *)
+Theorem C13_order_independent_upsert_partial : forall st1 st2 ws1 ws2,
+  store_ok st1 -> store_ok st2 -> shadow_free st1 -> shadow_free st2 ->
+  Permutation (call st1) (call st2) -> Permutation ws1 ws2 ->
+  NoDup (map wkey ws1) -> (forall w, In w ws1 -> s_peer (snd w) = "") ->
+  coherent (enames st1 ++ map fst ws1) ->
+  let a := upsert_all st1 ws1 in
+  let b := upsert_all st2 ws2 in
+  config_list a = config_list b /\
+  (forall s, cmatch_src a s = cmatch_src b s) /\
+  (forall d, coherent ((enames st1 ++ map fst ws1) ++ [d]) -> cmatch_dst a d = cmatch_dst b d) /\
+  (forall peer s d da ap, coherent ((enames st1 ++ map fst ws1) ++ [d]) ->
+     route1 (fun _ n => cmatch_src a n) dflt s dflt d da ap = route1 (fun _ n => cmatch_src b n) dflt s dflt d da ap /\
+     route2 (fun _ n => cmatch_dst a n) peer dflt s dflt d da ap = route2 (fun _ n => cmatch_dst b n) peer dflt s dflt d da ap).
+Proof. exact order_independent_upsert. Qed.
+
+(* ... without that proviso the stored order decides whether the upsert of the local source is accepted
+   (UpsertSourceByName ignores the peer), and with it the decision ... *)
+Theorem C13_stored_order_refuted :
+  store_ok so_st1 /\ store_ok so_st2 /\ Permutation (call so_st1) (call so_st2) /\
+  s_peer (snd so_w) = "" /\ coherent (enames so_st1 ++ ["db"; "web"]) /\
+  fst (upsert so_st1 (fst so_w) (snd so_w)) = WInvalid 10 /\
+  fst (upsert so_st2 (fst so_w) (snd so_w)) = WOk /\
+  d_allowed (route2 (fun _ n => cmatch_dst (upsert_all so_st1 [so_w]) n) "" dflt "web" dflt "db" false false) = true /\
+  d_allowed (route2 (fun _ n => cmatch_dst (upsert_all so_st2 [so_w]) n) "" dflt "web" dflt "db" false false) = false.
+Proof. exact stored_order_refuted. Qed.
+
+(* ... and without [coherent] two upserts whose destinations differ only in case do not commute. *)
+Theorem C13_case_folding_order_refuted :
+  NoDup (map wkey [cf_w1; cf_w2]) /\
+  d_allowed (route1 (fun _ n => cmatch_src (upsert_all [] [cf_w1; cf_w2]) n) dflt "web" dflt "db" false false) = true /\
+  d_allowed (route1 (fun _ n => cmatch_src (upsert_all [] [cf_w2; cf_w1]) n) dflt "web" dflt "db" false false) = false.
+Proof. exact case_folding_order_refuted. Qed.
+
+(* Non-vacuity: concrete stores meet every hypothesis used above, with non-trivial decisions
+   (exact allow; wildcard deny over default allow; wildcard-destination deny; L7; default). *)
+Example C13_hypotheses_satisfiable_config :
+  store_ok ex_store /\ shadow_free ex_store /\ coherent (enames ex_store ++ ["web"; "db"; "api"; "zz"]) /\
+  summary_code' (route2 (fun _ n => cmatch_dst ex_store n) "" dflt "web" dflt "db" false false) = (true, false, true) /\
+  summary_code' (route2 (fun _ n => cmatch_dst ex_store n) "" dflt "zz" dflt "db" true false) = (false, false, false) /\
+  summary_code' (route2 (fun _ n => cmatch_dst ex_store n) "" dflt "web" dflt "zz" true false) = (false, false, false) /\
+  summary_code' (route2 (fun _ n => cmatch_dst ex_store n) "" dflt "web" dflt "api" true false) = (false, true, true) /\
+  summary_code' (route2 (fun _ n => cmatch_dst ex_store n) "" dflt "zz" dflt "zz" true false) = (true, false, false).
+Proof. exact ex_store_ok. Qed.
+
+Example C13_hypotheses_satisfiable_legacy :
+  fresh_writes [] ex_writes /\ legacy_ok (legacy_apply [] ex_writes) /\
+  coherent (tnames (legacy_apply [] ex_writes) ++ [dflt; "web"; dflt; "db"]) /\
+  d_allowed (route1 (legacy_match (legacy_apply [] ex_writes) MSrc) dflt "web" dflt "db" false false) = true /\
+  d_allowed (route1 (legacy_match (legacy_apply [] ex_writes) MSrc) dflt "api" dflt "db" true false) = false.
+Proof. exact ex_legacy_ok. Qed.
+
+Print Assumptions C13_precedence_is_specificity.
+Print Assumptions C13_decision_unique.
+Print Assumptions C13_most_specific.
+Print Assumptions C13_most_specific_legacy.
+Print Assumptions C13_paths_agree.
+Print Assumptions C13_paths_agree_legacy.
+Print Assumptions C13_case_folding_refuted.
+Print Assumptions C13_case_folding_legacy_refuted.
+Print Assumptions C13_sorted_legacy.
+Print Assumptions C13_sorted_dst.
+Print Assumptions C13_sorted_src.
+Print Assumptions C13_sorted_src_partial.
+Print Assumptions C13_sorted_src_refuted.
+Print Assumptions C13_sorted_lists.
+Print Assumptions C13_sorted_strict.
+Print Assumptions C13_order_independent_legacy.
+Print Assumptions C13_order_independent_entries.
+Print Assumptions C13_order_independent_upsert_partial.
+Print Assumptions C13_stored_order_refuted.
+Print Assumptions C13_case_folding_order_refuted.
+Print Assumptions C13_hypotheses_satisfiable_config.
+Print Assumptions C13_hypotheses_satisfiable_legacy.
